@@ -8,10 +8,18 @@ pub struct Tensor<T, const D: usize> {
     data: Vec<T>,
 }
 
+/// Number of elements of a shape; panics when it does not fit into `usize`
+/// (a wrapped product could otherwise match the length of unrelated data).
+fn volume(dims: &[usize]) -> usize {
+    dims.iter()
+        .try_fold(1usize, |acc, &d| acc.checked_mul(d))
+        .expect("tensor shape overflows usize")
+}
+
 impl<T, const D: usize> Tensor<T, D> {
     pub fn from_vec(dims: [usize; D], data: Vec<T>) -> Self {
         assert!(!dims.contains(&0));
-        assert_eq!(dims.iter().product::<usize>(), data.len());
+        assert_eq!(volume(&dims), data.len());
         Self { dims, data }
     }
 
@@ -57,13 +65,13 @@ impl<T: Clone, const D: usize> Tensor<T, D> {
         assert!(!dims.contains(&0));
         Self {
             dims,
-            data: vec![value; dims.iter().product()],
+            data: vec![value; volume(&dims)],
         }
     }
 
     pub fn from_slice(dims: [usize; D], data: &[T]) -> Self {
         assert!(!dims.contains(&0));
-        assert_eq!(dims.iter().product::<usize>(), data.len());
+        assert_eq!(volume(&dims), data.len());
         Self {
             dims,
             data: data.to_vec(),
@@ -97,7 +105,7 @@ impl<T: Readable, const D: usize> Tensor<T, D> {
         assert!(!dims.contains(&0));
         Self {
             dims,
-            data: reader.read_vec(dims.iter().product()),
+            data: reader.read_vec(volume(&dims)),
         }
     }
 }
